@@ -43,6 +43,10 @@ THEOREMS: list[str] = [
     "IrVerif.Passes.C05_toposort",
     "IrVerif.Passes.C05_cse_skips",
     "IrVerif.Inline.C05_inline_partial",
+    "IrVerif.Inline.C05_inline_nested_partial",
+    "IrVerif.Inline.C05_inline",
+    "IrVerif.Inline.C05_coherent",
+    "IrVerif.Inline.C05_coherent_lift",
     "IrVerif.Inline.C05_call_depth",
     "IrVerif.Inline.C05_unused_functions",
     "IrVerif.Inline.C05_unused_opsets",
@@ -735,11 +739,6 @@ def _fcorr_step(part, case_id, name: str, model, where, crit=None) -> bool:
     for k, v in stats.items():
         if v:
             part.count(f"fcorr_feat:{k}")
-    if cmd == "inline.run" and stats["passthrough"]:
-        # D300: a function that returns one of its inputs is outside validF (the repaired pass forwards the value
-        # through an Identity node that the model does not insert yet): evaluation oracle only
-        part.count("fcorr_skipped:passthrough_output")
-        return True
     _CORR_BUF.append((req, "fstep", [where, name, bool(res.modified), crit is not None],
                       fcanon(after, domains=(cmd == "inline.ruo")), case_id))
     return True
@@ -749,9 +748,14 @@ def _fcorr_check(part, req, kind, where, expect, case_id, out) -> None:
     """compare one driver answer of the function-call models with the real result"""
     if kind == "fraised":
         part.count("fcorr_raised_checked")
-        if out.get("valid"):
+        if out.get("raised"):
+            # the model meets None among the replacement values of a call (a function returns an input that the call
+            # does not supply): replace_nodes_and_values raises, and the model answers with the unchanged model
+            part.count("fcorr_raised_predicted:" + where[2])
+        elif out.get("valid"):
             part.disagree(f"{where[1]} raised {where[2]} ({where[3]}) on a model that satisfies validF (the hypotheses "
-                          f"of C05_inline)", case_id, {"valid": True}, "raised")
+                          f"of C05_inline) and for which the model of the pass does not predict the raise",
+                          case_id, {"valid": True, "raised": False}, "raised")
         else:
             part.count("fcorr_raised_on_invalid:" + "+".join(out.get("why", [])))
         return
@@ -763,10 +767,21 @@ def _fcorr_check(part, req, kind, where, expect, case_id, out) -> None:
             part.count("fcorr_assumption_unmet:" + "+".join(out.get("why", [])))
         part.count("fcorr_flat=" + str(out.get("flat")))
         part.count("fcorr_hyp_partial=" + str(bool(out.get("valid") and out.get("flat"))))
+        if not where[3]:
+            # C05_inline_nested_partial: criteria=None, validF, any nesting depth
+            part.count("fcorr_hyp_nested=" + str(bool(out.get("valid"))))
+            if out.get("valid") and not out.get("flat"):
+                part.count("fcorr_nested_under_theorem")
         part.count("fcorr_valid_after=" + str(out.get("valid_after")))
-        if out.get("stuck") or out.get("dangling"):
-            part.disagree(f"{name} at {where[0]}: the model fell back to the unchanged model (stuck={out.get('stuck')}, "
-                          f"dangling={out.get('dangling')})", case_id, [out.get("stuck"), out.get("dangling")], None)
+        # hypothesis of C05_coherent (main graph without calls / reference attributes, Identity nodes with one input)
+        part.count("fcorr_pure_main_before=" + str(out.get("pure_main")))
+        part.count("fcorr_pure_main_after=" + str(out.get("pure_after")))
+        # C05_inline: any criteria, validF, any nesting depth
+        part.count("fcorr_hyp_inline=" + str(bool(out.get("valid"))))
+        flags = {k: out.get(k) for k in ("stuck", "dangling", "accepted_left", "raised", "syn_bad", "depth_bad")}
+        if any(flags.values()):
+            part.disagree(f"{name} at {where[0]}: the model fell back to the unchanged model ({flags}) although the "
+                          f"real pass returned", case_id, flags, None)
         if bool(out.get("count")) != modified:
             part.disagree(f"{name} at {where[0]}: modified flag {modified} but the model inlined {out.get('count')} calls",
                           case_id, out.get("count"), modified)
@@ -777,6 +792,7 @@ def _fcorr_check(part, req, kind, where, expect, case_id, out) -> None:
         if not out.get("closed"):
             part.disagree(f"{name} at {where[0]}: the model's used set is not closed", case_id, out.get("used"), None)
         part.count("fcorr_ruf_modified=" + str(modified))
+        part.count("fcorr_pure_main_before=" + str(out.get("pure_main")))
     got = fcanon(out["model"], domains=(cmd == "inline.ruo"))
     if got != expect:
         part.disagree(f"fstep {where}: model result != real pass result at {first_diff(got, expect)}",
@@ -1770,6 +1786,13 @@ class _Gen:
         n_out = min(len(cand), r.choice([1, 1, 2]))
         # prefer the latest values so that the body is mostly live
         outs = r.sample(cand[-4:], min(n_out, len(cand[-4:])))
+        if r.random() < 0.18:
+            # a function that returns one of its inputs (D300: the inliner forwards it through an Identity node);
+            # sometimes as the only output (the checker rejects a value listed twice)
+            pt = r.choice(ins)
+            outs = ([] if r.random() < 0.15 else outs) + [pt]
+            r.shuffle(outs)
+            self.feat.add("fn_passthrough_output")
         fn = _Fn(self.fresh("Fn"), in_kinds, [k for _, k in outs], attrs)
         fop = self.opset  # the checker rejects a function importing another version of a domain than the model
         imports = [oh.make_opsetid("", fop)]
@@ -3239,6 +3262,29 @@ def _fn_edge_models() -> list[tuple[str, bytes]]:
     # pass-through of a graph input that is also read later and is a graph output
     add("passthrough_io", [call("Fp", ["x", "w"], ["p", "q"]), oh.make_node("Mul", ["q", "w"], ["y"])], [f_pass],
         ins=(("x", [3]), ("w", [3])), outs=(("y", [3]), ("p", [3])))
+    # the same input returned twice, and a function that only returns its input
+    f_pass2 = oh.make_function("local", "Fq", ["a", "b"], ["b", "c", "b"], [oh.make_node("Neg", ["a"], ["c"])], imp[:1])
+    add("passthrough_twice", [call("Fq", ["x", "w"], ["p", "q", "r"]), oh.make_node("Add", ["p", "q"], ["s"]),
+                              oh.make_node("Add", ["s", "r"], ["y"])], [f_pass2], ins=(("x", [3]), ("w", [3])))
+    f_id = oh.make_function("local", "Fid", ["a"], ["a"], [], imp[:1])
+    add("passthrough_only", [call("Fid", ["x"], ["p"]), oh.make_node("Neg", ["p"], ["y"])], [f_id])
+    add("passthrough_only_output", [call("Fid", ["x"], ["y"])], [f_id])
+    # nested: G returns what the pass-through function F returns (its own input), F called twice in a chain
+    g_nest = oh.make_function("local", "Gn", ["a", "b"], ["u", "v"],
+                              [call("Fp", ["a", "b"], ["t", "u"]), call("Fp", ["t", "u"], ["v", "w2"])], imp)
+    add("passthrough_nested", [call("Gn", ["x", "w"], ["p", "q"]), oh.make_node("Add", ["p", "q"], ["y"])],
+        [f_pass, g_nest], ins=(("x", [3]), ("w", [3])))
+    h_nest = oh.make_function("local", "Hn", ["a"], ["r"], [call("Fid", ["a"], ["s"]), call("Fid", ["s"], ["r"])], imp)
+    add("passthrough_chain", [call("Hn", ["x"], ["y"])], [f_id, h_nest])
+    add("passthrough_chain_criteria", [call("Hn", ["x"], ["u"]), call("Fid", ["u"], ["y"])], [h_nest, f_id])
+    # a call that does not supply the input that the function returns: the real pass raises (None among the
+    # replacement values); the model has to predict it (driver flag `raised`)
+    add("passthrough_short_call", [call("Fp", ["x"], ["p", "q"]), oh.make_node("Neg", ["p"], ["y"])], [f_pass])
+    g_short = oh.make_function("local", "Gs", ["a", "b"], ["t"], [call("Fp", ["a", "b"], ["t", "u"])], imp)
+    add("passthrough_short_nested", [call("Gs", ["x"], ["y"])], [f_pass, g_short])
+    # a model-local function called Identity in the default domain (the inserted Identity nodes would be calls)
+    f_identity = oh.make_function("", "Identity", ["a"], ["b"], [oh.make_node("Neg", ["a"], ["b"])], imp[:1])
+    add("identity_function", [call("Fid", ["x"], ["p"]), oh.make_node("Identity", ["p"], ["y"])], [f_id, f_identity])
     # the same value twice among the function outputs
     f_dup = oh.make_function("local", "Fd", ["a"], ["c", "c"], [oh.make_node("Abs", ["a"], ["c"])], imp[:1])
     add("dup_outputs", [call("Fd", ["x"], ["p", "q"]), oh.make_node("Sub", ["p", "q"], ["y"])], [f_dup])
@@ -3286,6 +3332,9 @@ def _fn_edge_models() -> list[tuple[str, bytes]]:
     return out
 
 
+_FN_EDGE_CORR_ONLY = {"passthrough_short_call", "passthrough_short_nested", "identity_function"}
+
+
 def _fn_edge_stream(part) -> None:
     import onnx_ir as ir
 
@@ -3297,6 +3346,15 @@ def _fn_edge_stream(part) -> None:
         part.count("fn_edge_models")
         part.count("fn_edge:" + tag)
         proto = _parse(raw)
+        if tag in _FN_EDGE_CORR_ONLY:
+            # not a case of the oracle: the strict onnx checker (C++ shape inference) crashes the process on a call
+            # that omits an input which the function returns, and a function in the default domain does not survive
+            # the serde round trip of the checker's required fields; model/implementation correspondence only
+            part.count("fn_edge_corr_only:" + tag)
+            for seq in seqs[:2]:
+                case_id = {"stream": "fn-edge", "tag": tag, "sha1": _sha(raw), "seq": seq}
+                correspond(part, case_id, lambda b=raw: ir.serde.deserialize_model(_parse(b)), seq)
+            continue
         try:
             inputs = _default_inputs(proto)
         except Exception:  # noqa: BLE001
